@@ -19,7 +19,12 @@ import (
 	"strconv"
 	"strings"
 	"sync"
+	"time"
 )
+
+// passiveAcceptTimeout is how long a passive-mode listener waits for the
+// client's data connection
+const passiveAcceptTimeout = 30 * time.Second
 
 // A data socket is used to send non-control data between the client and
 // server.
@@ -153,12 +158,17 @@ func (socket *ftpPassiveSocket) GoListenAndServe(sessionid string) (err error) {
 		return
 	}
 
-	var listener net.Listener
-	listener, err = net.ListenTCP("tcp", laddr)
+	tcpListener, err := net.ListenTCP("tcp", laddr)
 	if err != nil {
 		log.Debug(sessionid, err.Error())
 		return
 	}
+
+	// a client that never connects must not keep the listening socket, the
+	// accepting goroutine and a transfer waiting for the data connection forever
+	tcpListener.SetDeadline(time.Now().Add(passiveAcceptTimeout))
+
+	var listener net.Listener = tcpListener
 
 	add := listener.Addr()
 	parts := strings.Split(add.String(), ":")
@@ -177,13 +187,15 @@ func (socket *ftpPassiveSocket) GoListenAndServe(sessionid string) (err error) {
 
 	go func() {
 		conn, err := listener.Accept()
-		socket.wg.Done()
+		// one data connection per passive socket
+		listener.Close()
 		if err != nil {
 			socket.err = err
-			return
+		} else {
+			socket.err = nil
+			socket.conn = conn
 		}
-		socket.err = nil
-		socket.conn = conn
+		socket.wg.Done()
 	}()
 	return nil
 }
